@@ -120,8 +120,7 @@ pub fn eval(c: &Case, pools: bool) -> Result<(Vec<(String, String)>, String), &'
         }
     }
     if pools {
-        for threads in [1usize, 2, 4, 8, 16] {
-            let pool = rayon::ThreadPoolBuilder::new().num_threads(threads).build().unwrap();
+        for (threads, pool) in crate::c10::pools_1_to_16() {
             let g = pool.install(|| robot.non_colliding_offsets(&c.initial, &from, &to));
             if !same_multiset(&g, &got) {
                 fails.push((format!("C14/pool{threads}"), "offered set depends on the thread pool size".into()));
@@ -162,7 +161,7 @@ pub fn run(ctx: &Ctx) -> Report {
         // delta vectors: joint i takes magnitude (d + i*(1 + d/4)) mod 4, so each joint sees each magnitude next to each neighbour magnitude
         let delta: [f64; 6] = std::array::from_fn(|i| mags[(d + i * (1 + d / 6)) % 6]);
         let c = Case { presence: ix[0], layout: layouts[ix[1]], safety: ix[2], limits: ix[3], initial: initials[ix[4]], delta };
-        match eval(&c, idx % 64 == 0) {
+        match eval(&c, idx % 8 == 0) {
             Err(_) => r.skipped_precondition += 1,
             Ok((fails, sig)) => {
                 r.states += 1;
@@ -187,7 +186,7 @@ pub fn run(ctx: &Ctx) -> Report {
     rep.rule = "synthetic cell (with/without base and tool, moved base) x environments x safety {touch, 3 cm} x limits {wide, tight} x collision-free initial \
                 postures x from/to = initial -+ delta with per-joint magnitudes {0.35,0.8,1.3,1.8,2.2,2.9} (moving a joint into free space, self-collision, the base, \
                 the environment or out of limits); oracle: the 12 single-joint candidates kept iff arc membership accepts them and the full collides() \
-                of the same robot reports them free, compared as multisets; every 64th case re-run in rayon pools of 1..16 threads; \
+                of the same robot reports them free, compared as multisets; every 8th case re-run in rayon pools of 1, 2, 4, 8, 16 threads; \
                 signature = (offered, illegal, colliding)".into();
     rep.set("axes", json!({"presence": 5, "layouts": layouts.len(), "safety": 2, "limits": 2, "initials": initials.len(), "delta_vectors": n_delta}));
     rep.assumptions.push("the full collision check used as reference is tied to the brute-force pair oracle by C10".into());
